@@ -440,3 +440,71 @@ func runMuxReacceptAtOnce(role string, rounds int) (impl, pred string) {
 	}
 	return impl, "ok"
 }
+
+// runMuxDupDialUnserved (C09, "repeated dials to one ID … cannot block the broker"): multiplexed; one side accepted id 70 and
+// is not serving it; the other side dials 70 TWICE and gives up; the listener is closed; then a fresh pair on id 80 in
+// the same direction must work, and the main connection too.
+func runMuxDupDialUnserved(role string) (impl, pred string) {
+	p, err := newGrpcPair(true)
+	if err != nil {
+		return "setup-error", "FAIL:setup"
+	}
+	defer func() { withTimeout(15*time.Second, func() error { p.close(); return nil }) }()
+	acceptor, dialler := p.plug, p.host
+	if role == "client" {
+		acceptor, dialler = p.host, p.plug
+	}
+	ln, err := acceptor.Accept(70)
+	if err != nil {
+		return "accept-err", "FAIL:setup-accept"
+	}
+	var wg sync.WaitGroup
+	for k := 0; k < 2; k++ {
+		wg.Add(1)
+		go func() {
+			defer wg.Done()
+			_, conn, _ := pingKeep(dialler, 70, 1500*time.Millisecond)
+			if conn != nil {
+				conn.Close()
+			}
+		}()
+		time.Sleep(100 * time.Millisecond)
+	}
+	wg.Wait()
+	// the unserved listener is given up (while it is open and unserved, the announced streams wait for it — and, the
+	// establishments being sequential by design, so does everything behind them)
+	ln.Close()
+	time.Sleep(400 * time.Millisecond)
+	fresh := "ok"
+	r, hung, pp := "", false, interface{}(nil)
+	_, hung, pp = withTimeout(20*time.Second, func() error {
+		go func() {
+			defer func() { recover() }()
+			servePingPong(acceptor, 80)
+		}()
+		time.Sleep(150 * time.Millisecond)
+		ans, conn2, err := pingKeep(dialler, 80, 8*time.Second)
+		if conn2 != nil {
+			conn2.Close()
+		}
+		if err != nil || ans != "80" {
+			r = "failed"
+		}
+		return nil
+	})
+	if hung || pp != nil || r != "" {
+		fresh = "failed"
+	}
+	mainOK := true
+	if err, hung, pp := withTimeout(5*time.Second, p.client.Ping); err != nil || hung || pp != nil {
+		mainOK = false
+	}
+	impl = fmt.Sprintf("fresh=%s main=%s", fresh, b01(mainOK))
+	switch {
+	case fresh != "ok":
+		return impl, "FAIL:fresh-pair-failed-after-two-dials-of-an-unserved-id"
+	case !mainOK:
+		return impl, "FAIL:main-connection-dead"
+	}
+	return impl, "ok"
+}
